@@ -145,7 +145,7 @@ func H_C15_copy() {
 	}}}, "b", "src", emptyConds)
 	srcBefore := vSnap(g, "b", "src")
 	b2 := []string{"b", "b2"}[vChoice("dst.bucket", 0, 1)]
-	dst := []string{"x", "dir/x", "a/o/b", "a b", "a.b", "src"}[vChoice("dst.name", 0, 5)]
+	dst := []string{"x", "dir/x", "a/o/b", "a b", "a.b", "src", "a+b", "q%2Fs", "50%"}[vChoice("dst.name", 0, 8)]
 	path := "src/rewriteTo/b/" + b2 + "/o/" + dst
 	srcName := "src"
 	switch vChoice("shape", 0, 2) {
